@@ -214,3 +214,131 @@ Proof.
   destruct (fold_left _ (mergeable_fields b) (Ok (own_fields a))) as [fs'|] eqn:E; cbn [rbind]; [|discriminate].
   intros H; inversion H; subst; cbn [td_fields]. apply G. exact E.
 Qed.
+
+(* ---------- C07: the merged schema has exactly the types of the services (minus plumbing) ---------- *)
+Definition skipped (n : string) : bool := starts_uu n || String.eqb n "Node" || String.eqb n "Service".
+Definition dropped_first (n : string) : bool := String.eqb n "Node" || String.eqb n "Service".
+
+Lemma find_type_name k s t : find_type k s = Some t -> td_name t = k /\ In t s.
+Proof. unfold find_type. intros H. apply find_some in H. destruct H as [Hin He]. apply String.eqb_eq in He. auto. Qed.
+Lemma find_type_none k s : find_type k s = None -> ~ In k (map td_name s).
+Proof.
+  unfold find_type. intros H Hin. apply in_map_iff in Hin. destruct Hin as [t [Ht Hin]].
+  pose proof (find_none _ _ H t Hin) as Hn. simpl in Hn. rewrite Ht, String.eqb_refl in Hn. discriminate.
+Qed.
+
+Lemma replace_names m result : In (td_name m) (map td_name result) ->
+  forall n, In n (map td_name (replace_type m result)) <-> In n (map td_name result).
+Proof.
+  induction result as [|x r IH]; intros Hin n; [destruct Hin|]. simpl.
+  destruct (String.eqb (td_name x) (td_name m)) eqn:E.
+  - apply String.eqb_eq in E. simpl. rewrite E. tauto.
+  - simpl. destruct Hin as [Hin|Hin]; [rewrite Hin, String.eqb_refl in E; discriminate|]. rewrite (IH Hin n). tauto.
+Qed.
+
+Lemma step_names a b result vb result' : step a b (Ok result) vb = Ok result' ->
+  forall n, In n (map td_name result') <-> In n (map td_name result) \/ (skipped (td_name vb) = false /\ n = td_name vb).
+Proof.
+  unfold step, skipped. cbn [rbind].
+  destruct (starts_uu (td_name vb) || String.eqb (td_name vb) "Node" || String.eqb (td_name vb) "Service") eqn:Es.
+  { intros H n. inversion H; subst. split; [tauto | intros [H1|[H1 _]]; [exact H1 | discriminate]]. }
+  assert (Hcn : td_name (clean vb) = td_name vb) by reflexivity.
+  destruct (find_type (td_name vb) result) as [va|] eqn:Ef.
+  - destruct (find_type_name _ _ _ Ef) as [Hna Hina].
+    assert (Hk : In (td_name vb) (map td_name result)) by (rewrite <- Hna; apply in_map; exact Hina).
+    assert (Hrep : forall m, td_name m = td_name vb -> forall n,
+               In n (map td_name (replace_type m result)) <-> In n (map td_name result) \/ (false = false /\ n = td_name vb)).
+    { intros m Hm n. rewrite (replace_names m result); [|rewrite Hm; exact Hk]. split; [tauto | intros [H1|[_ H1]]; [exact H1 | subst; exact Hk]]. }
+    destruct (negb (kind_eqb (td_kind (clean vb)) (td_kind va))); [discriminate|].
+    destruct (td_kind (clean vb));
+      try (intros H; inversion H; subst; apply Hrep; reflexivity);
+      (destruct ((negb (fed (clean vb)) || negb (fed va)) && negb (String.eqb (td_name vb) "Query" || String.eqb (td_name vb) "Mutation")); [discriminate|];
+       destruct (negb (Bool.eqb (td_boundary va) (td_boundary (clean vb))) || negb (Bool.eqb (td_namespace va) (td_namespace (clean vb)))); [discriminate|];
+       destruct (negb (kind_eqb (td_kind va) KObject)); [discriminate|];
+       destruct (td_namespace (clean vb) || is_root (td_name vb));
+       [ destruct (merge_namespace a b (clean vb) va) as [m|] eqn:Em; simpl; [|discriminate];
+         intros H; inversion H; subst; apply Hrep; rewrite (merge_namespace_name _ _ _ _ _ Em); reflexivity
+       | destruct (merge_boundary (clean vb) va) as [m|] eqn:Em; simpl; [|discriminate];
+         intros H; inversion H; subst; apply Hrep; rewrite (merge_boundary_name _ _ _ Em); reflexivity ]).
+  - intros H n. inversion H; subst. rewrite map_app, in_app_iff. cbn [map In]. change (td_name (clean vb)) with (td_name vb).
+    split; [intros [H1|[H1|[]]]; [left; exact H1 | right; split; [reflexivity | symmetry; exact H1]]
+           | intros [H1|[_ H1]]; [left; exact H1 | right; left; symmetry; exact H1]].
+Qed.
+
+Lemma fold_names a b l : forall result r, fold_left (step a b) l (Ok result) = Ok r ->
+  forall n, In n (map td_name r) <-> In n (map td_name result) \/ exists vb, In vb l /\ skipped (td_name vb) = false /\ n = td_name vb.
+Proof.
+  induction l as [|x t IH]; intros result r H n; cbn [fold_left] in H.
+  - inversion H; subst. split; [tauto | intros [H1|[vb [[] _]]]; exact H1].
+  - destruct (step a b (Ok result) x) as [r1|m] eqn:E; [|rewrite fold_err in H; discriminate].
+    rewrite (IH _ _ H n). rewrite (step_names _ _ _ _ _ E n). split.
+    + intros [[H1|[H1 H2]]|[vb [H1 H2]]]; [left; exact H1 | right; exists x; split; [left; reflexivity | auto] | right; exists vb; split; [right; exact H1 | exact H2]].
+    + intros [H1|[vb [[H1|H1] H2]]]; [left; left; exact H1 | subst vb; left; right; exact H2 | right; exists vb; auto].
+Qed.
+
+Theorem merge_types_names a b r : merge_types a b = Ok r ->
+  forall n, In n (map td_name r) <->
+            (In n (map td_name a) /\ dropped_first n = false) \/ (exists vb, In vb b /\ skipped (td_name vb) = false /\ n = td_name vb).
+Proof.
+  rewrite merge_types_fold. intros H n. rewrite (fold_names a b b _ r H n).
+  assert (Ha : In n (map td_name (map clean (filter (fun t => negb (String.eqb (td_name t) "Node" || String.eqb (td_name t) "Service")) a)))
+               <-> In n (map td_name a) /\ dropped_first n = false).
+  { rewrite map_map. unfold dropped_first. split.
+    - intros Hin. apply in_map_iff in Hin. destruct Hin as [t [Ht Hin]]. apply filter_In in Hin. destruct Hin as [Hin Hf].
+      simpl in Ht. subst n. split; [apply in_map; exact Hin | apply negb_true_iff; exact Hf].
+    - intros [Hin Hd]. apply in_map_iff in Hin. destruct Hin as [t [Ht Hin]]. apply in_map_iff. exists t. split; [exact Ht|].
+      apply filter_In. split; [exact Hin | rewrite Ht; apply negb_true_iff; exact Hd]. }
+  rewrite Ha. tauto.
+Qed.
+
+Lemma skipped_dropped n : skipped n = false -> dropped_first n = false.
+Proof. unfold skipped, dropped_first. destruct (starts_uu n); simpl; [discriminate | auto]. Qed.
+
+Definition contributes (b : sschema) (n : string) : Prop := exists vb, In vb b /\ skipped (td_name vb) = false /\ n = td_name vb.
+
+Lemma fold_merge_err l m : fold_left (fun r b => do a <- r ;; merge_types a b) l (Err m) = Err m.
+Proof. induction l as [|x t IH]; simpl; auto. Qed.
+
+Definition NoPl (acc : sschema) : Prop := forall n, In n (map td_name acc) -> dropped_first n = false.
+
+Lemma merge_types_nopl a b r : merge_types a b = Ok r -> NoPl r.
+Proof.
+  intros H n Hn. apply (merge_types_names _ _ _ H) in Hn. destruct Hn as [[_ Hd]|[vb [_ [Hs Hn]]]]; [exact Hd | subst; apply skipped_dropped; exact Hs].
+Qed.
+
+Lemma fold_merge_names rest : forall acc r, NoPl acc ->
+  fold_left (fun r b => do a <- r ;; merge_types a b) rest (Ok acc) = Ok r ->
+  forall n, In n (map td_name r) <-> In n (map td_name acc) \/ exists b, In b rest /\ contributes b n.
+Proof.
+  induction rest as [|b t IH]; intros acc r Hnp H n; cbn [fold_left] in H.
+  - inversion H; subst. split; [tauto | intros [Hn|[b [[] _]]]; exact Hn].
+  - cbn [rbind] in H. destruct (merge_types acc b) as [acc'|m] eqn:E; [|rewrite fold_merge_err in H; discriminate].
+    rewrite (IH _ _ (merge_types_nopl _ _ _ E) H n). pose proof (merge_types_names _ _ _ E n) as Hm. unfold contributes in *. split.
+    + intros [Hn|[b' [Hb' Hc]]].
+      * apply Hm in Hn. destruct Hn as [[Hn _]|Hn]; [left; exact Hn | right; exists b; split; [left; reflexivity | exact Hn]].
+      * right. exists b'. split; [right; exact Hb' | exact Hc].
+    + intros [Hn|[b' [[Hb'|Hb'] Hc]]].
+      * left. apply Hm. left. split; [exact Hn | apply Hnp; exact Hn].
+      * subst b'. left. apply Hm. right. exact Hc.
+      * right. exists b'. auto.
+Qed.
+
+(* the n-ary merge (two or more services): a type is in the merged schema iff some service defines it and it is not
+   plumbing; the first schema contributes everything but Node and Service, every later one everything but Node, Service and
+   the "__" meta types *)
+Theorem merge_schemas_names s b1 rest r : merge_schemas (s :: b1 :: rest) = Ok r ->
+  forall n, In n (map td_name r) <->
+            (In n (map td_name s) /\ dropped_first n = false) \/ exists b, In b (b1 :: rest) /\ contributes b n.
+Proof.
+  unfold merge_schemas. cbn [fold_left rbind]. intros H n.
+  destruct (merge_types s b1) as [acc|m] eqn:E; [|rewrite fold_merge_err in H; discriminate].
+  rewrite (fold_merge_names rest acc r (merge_types_nopl _ _ _ E) H n). pose proof (merge_types_names _ _ _ E n) as Hm.
+  unfold contributes in *. split.
+  - intros [Hn|[b [Hb Hc]]].
+    + apply Hm in Hn. destruct Hn as [Hn|Hn]; [left; exact Hn | right; exists b1; split; [left; reflexivity | exact Hn]].
+    + right. exists b. split; [right; exact Hb | exact Hc].
+  - intros [Hn|[b [[Hb|Hb] Hc]]].
+    + left. apply Hm. left. exact Hn.
+    + subst b. left. apply Hm. right. exact Hc.
+    + right. exists b. auto.
+Qed.
